@@ -1,5 +1,5 @@
 """C16 - info/export are faithful views: frame JSON, scene list, L5 config, summary."""
-import copy, json, os, re
+import copy, json, math, os, re
 from .. import common as C
 from .. import rpu as R
 from .. import cli
@@ -32,9 +32,25 @@ def boundary_codes():
     return out
 
 
-def steer_l2(r, tree, codes):
-    """give some L2 blocks a target_max_pq next to a rounding boundary of the summary"""
+def boundary_codes_1000():
+    """12-bit PQ codes next to a rounding boundary of the `RPU mastering display` line (peak snapped to
+    a multiple of 1000 nits: boundaries at x500), plus the codes of the round peaks themselves (they
+    convert back to just below or just above the multiple: 3388 -> 1998.6, 3079 -> 1000.6)"""
+    out = []
+    for c in range(1, 4096):
+        n = pq_to_nits(c / 4095.0)
+        f = (n / 1000.0) % 1.0
+        if n >= 400 and (abs(f - 0.5) < 0.01 or f < 0.004 or f > 0.996):
+            out.append(c)
+    return out
+
+
+def steer_l2(r, tree, codes, mcodes=None):
+    """give some L2 blocks a target_max_pq next to a rounding boundary of the summary (and the source
+    peak a code next to a boundary of the mastering display line)"""
     d = tree.get("vdr_dm_data")
+    if d and mcodes and r.random() < 0.5:
+        d["source_max_pq"] = r.choice(mcodes)
     if not d or not d.get("cmv29_metadata"):
         return
     for b in d["cmv29_metadata"]["ext_metadata_blocks"]:
@@ -143,6 +159,7 @@ def run(res):
     ncase = 25 if res.tier == "quick" else 300
     nrun = 0
     BCODES = boundary_codes()
+    MCODES = boundary_codes_1000()
     stats = {"frames": 0, "l5_runs": 0, "info_frames": 0, "editor_roundtrips": 0}
     for k in range(ncase):
         n = r.choice([1, 2, 3, 5, 8, 12, 20])
@@ -170,7 +187,7 @@ def run(res):
             else:
                 key = None
             set_l5(t, key)
-            steer_l2(r, t, BCODES)
+            steer_l2(r, t, BCODES, MCODES)
             if t.get("vdr_dm_data"):
                 t["vdr_dm_data"]["scene_refresh_flag"] = r.choice([0, 0, 0, 1])
             raw = G.encode(t).rstrip(b"\x00")
@@ -305,6 +322,11 @@ def run(res):
         nm = len(exp["mastering"])
         if got["mastering_str"] is None or (nm and len(got["mastering_str"].split(", ")) != nm):
             problems.append("mastering display list: printed %r for %d distinct pairs" % (got["mastering_str"], nm))
+        elif nm:
+            # min with 4 decimals, peak snapped to the nearest multiple of 1000 nits, both from the stored PQ codes
+            em = ["%.4f/%d nits" % (math.floor(pq_to_nits(a / 4095.0) * 1e6 + 0.5) / 1e6, int(math.floor(pq_to_nits(b / 4095.0) / 1000.0 + 0.5)) * 1000) for a, b in exp["mastering"]]
+            if got["mastering_str"].split(", ") != em:
+                problems.append("RPU mastering display: printed %r, computed %r" % (got["mastering_str"], ", ".join(em)))
         if problems:
             res.violation("info --summary differs from the per-frame data: " + "; ".join(problems)[:400], dict(rp, summary=t5[-600:]))
     res.coverage.update({
